@@ -215,6 +215,28 @@ def check_candidates(schema, cands, rec, label):
             if got != accept:
                 rec.violation("a definition is accepted through one way of building the dictionary and not through another", case,
                               key="placeholders-without-pound-name" if why == "two placeholders without /# name" else None)
+    # two dictionaries defining one name, merged: the first stays, the clash is reported
+    for name in list(first_contents)[:2]:
+        disp = dd.defs[name].name
+        rec.mon("merge-keeps-first")
+        case = dict(kind="merge", schema=label, name=disp)
+        try:
+            d1 = DefinitionDict([f"(Definition/{disp}, (Red))"], schema)
+            d2 = DefinitionDict([f"(Definition/{disp.swapcase()}, (Blue, Green))"], schema)
+            for how in ("constructor", "add_definitions"):
+                if how == "constructor":
+                    m = DefinitionDict([d1, d2], schema)
+                else:
+                    m = DefinitionDict(d1, schema)
+                    m.add_definitions(d2, schema)
+                kept = m.defs[name.casefold()]
+                if str(kept.contents).casefold() != "(red)":
+                    rec.violation("merging two dictionaries lets a later definition replace the one accepted first",
+                                  dict(case, how=how))
+                if not m.issues:
+                    rec.violation("merging two dictionaries with a clashing name reports nothing", dict(case, how=how))
+        except Exception as ex:  # noqa
+            rec.violation(f"merging dictionaries raised {type(ex).__name__}", case)
     # duplicates (case-insensitive) are reported and ignored
     for name in list(first_contents)[:3]:
         disp = dd.defs[name].name
@@ -324,6 +346,12 @@ def check_annotation(case, rec):
                     key = "double-expand-cycle" if ops[:k + 1].count("expand") >= 2 else None
                     rec.violation(f"history step '{op}': annotation differs from the model state '{state}'", hcase, key=key)
                     break
+                # the long and the short form of the object, whatever was read or done before, name the same tags
+                rec.mon("history-forms-agree")
+                if HedString(h.get_as_short(), schema).get_as_long() != h.get_as_long() or \
+                        HedString(h.get_as_long(), schema).get_as_short() != h.get_as_short():
+                    rec.violation(f"history step '{op}': long and short form of the object disagree", hcase)
+                    break
             except RecursionError:
                 rec.violation(f"history step '{op}' ends in RecursionError", hcase, key="double-expand-cycle")
                 break
@@ -431,6 +459,15 @@ def run_shard(shard, rec):
                         rng.choice(groups)["kids"].append(use)
                     else:
                         items.append(use)
+                # the same Def/Name[/v] once more, in a group of its own (not a sibling of the first: no repeat error)
+                uses = [t for t, _ in annot.walk(items) if t["t"] == "tag" and t["role"] == "def"]
+                if uses and rng.random() < 0.4:
+                    import copy as _copy
+                    again = _copy.deepcopy(rng.choice(uses))
+                    if rng.random() < 0.5:
+                        again["name"] = again["name"].swapcase()
+                    items.append(annot.group([again, gen._plain_atom()]))
+                    rec.count("annotation-feature", "same-def-twice")
             except RuntimeError:
                 rec.discard()
                 continue
